@@ -26,6 +26,13 @@ def _int(ex, st, v):
     raise sx.NotEncodable("expected integer, got %r" % (v,))
 
 
+def _num(ex, st, v):
+    v = ex.deref(st, v)
+    if isinstance(v, sx.Flt):
+        return v
+    return _int(ex, st, v)
+
+
 def _some(v, name="Option"):
     return sx.Enum(1, {0: [], 1: [v]}, name)
 
@@ -47,6 +54,11 @@ def _panic(ex, st, label, cond=True):
         raise sx.Diverge(label)
     if not is_c(cond):
         st.pc.append(not_(cond))
+
+
+def _panic_fp(ex, st, label, cond):
+    """outside the exact-integer f64 model: recorded as an 'fpexact' obligation (inconclusive if satisfiable)"""
+    ex.oblige("fpexact", label, st.pc, cond)
 
 
 def _ordering(x, y):
@@ -72,6 +84,42 @@ def try_model(ex, st, callee, args):
         return sx.Opaque("fmt")
     if c.startswith("log::") or "__private_api" in c:
         return sx.UNIT
+
+    # ---------------------------------------------------------------- f64 restricted to exact integers (symex.Flt)
+    m = re.match(r"^core::f64::<impl f64>::(\w+)$", c)
+    if m and args and isinstance(ex.deref(st, args[0]), sx.Flt):
+        meth = m.group(1)
+        x = ex.deref(st, args[0]).t
+        if meth == "is_finite":
+            return sx.Bool(True)
+        if meth in ("is_nan", "is_infinite"):
+            return sx.Bool(False)
+        if meth == "abs":
+            return sx.Flt(nm(ite(lt(x, 0), neg(x), x), "fa"))
+        if meth in ("trunc", "floor", "ceil", "round"):
+            return sx.Flt(x)
+        if meth == "copysign":
+            y = ex.deref(st, args[1])
+            if isinstance(y, sx.Flt):
+                # sign of zero is not modelled: require y != 0
+                _panic_fp(ex, st, "copysign with a zero sign operand (sign of zero not modelled)", eq(y.t, 0))
+                ax = ite(lt(x, 0), neg(x), x)
+                return sx.Flt(nm(ite(lt(y.t, 0), neg(ax), ax), "cs"))
+        if meth in ("min", "max"):
+            y = ex.deref(st, args[1])
+            if isinstance(y, sx.Flt):
+                f = lt if meth == "min" else gt
+                return sx.Flt(nm(ite(f(x, y.t), x, y.t), "fm"))
+        if meth == "signum":
+            _panic_fp(ex, st, "signum of zero (sign of zero not modelled)", eq(x, 0))
+            return sx.Flt(ite(lt(x, 0), -1, 1))
+        if meth == "mul_add":
+            a_, b_ = ex.deref(st, args[1]), ex.deref(st, args[2])
+            if isinstance(a_, sx.Flt) and isinstance(b_, sx.Flt) and (is_c(x) or is_c(a_.t)):
+                r = nm(add(mul(x, a_.t), b_.t), "fma")
+                _panic_fp(ex, st, "mul_add result beyond 2^53", not_(and_(le(-sx.F64_EXACT, r), le(r, sx.F64_EXACT))))
+                return sx.Flt(r)
+        raise sx.NotEncodable("f64::" + meth)
 
     # ---------------------------------------------------------------- inherent integer methods
     m = re.match(r"^core::num::<impl ([iu]\w+)>::(\w+)$", c)
@@ -124,8 +172,8 @@ def try_model(ex, st, callee, args):
             return sx.Agg([args[0], args[1]])
         if meth == "contains":
             r = ex.deref(st, args[0])
-            x = _int(ex, st, args[1])
-            lo, hi = _int(ex, st, r.f[0]), _int(ex, st, r.f[1])
+            x = _num(ex, st, args[1])
+            lo, hi = _num(ex, st, r.f[0]), _num(ex, st, r.f[1])
             return sx.Bool(and_(le(lo.t, x.t), le(x.t, hi.t)))
         raise sx.NotEncodable("RangeInclusive::" + meth)
     m = re.match(r"^(?:core::ops::)?Range::(\w+)$", c)
@@ -147,6 +195,27 @@ def try_model(ex, st, callee, args):
         if meth == "from_icu4x":
             return sx.Agg([sx.Enum(2, {2: []}, "ErrorKind"), sx.Opaque("msg")])
         return NO_MODEL
+    if c.endswith("is_valid_duration") and len(args) == 10:
+        # summary of the crate's IsValidDuration on exact-integer doubles (the function itself allocates a Vec and is
+        # decided for all doubles by the C09 Kani harnesses): sign-uniform, |y|,|mo|,|w| < 2^32, |total| < 2^53 s
+        vs = []
+        for a_ in args:
+            v = ex.deref(st, a_)
+            while isinstance(v, sx.Agg):
+                v = v.f[0]
+            if not isinstance(v, sx.Flt):
+                raise sx.NotEncodable("is_valid_duration on non-integral value")
+            vs.append(v.t)
+        pos = or_(*[gt(v, 0) for v in vs])
+        neg_ = or_(*[lt(v, 0) for v in vs])
+        lim32 = 1 << 32
+        small = and_(*[and_(lt(v, lim32), gt(v, -lim32)) for v in vs[:3]])
+        units = [86_400 * 10**9, 3_600 * 10**9, 60 * 10**9, 10**9, 10**6, 10**3, 1]
+        total = 0
+        for v, u_ in zip(vs[3:], units):
+            total = add(total, mul(u_, v))
+        lim = (1 << 53) * 10**9
+        return sx.Bool(and_(not_(and_(pos, neg_)), small, lt(total, lim), gt(total, -lim)))
     if c in ("core::mem::drop", "drop", "core::hint::black_box"):
         return sx.UNIT
     if c in ("core::num::<impl u8>::is_ascii_digit",):
@@ -229,6 +298,47 @@ def _trait_call(ex, st, ty, tr, full_tr, meth, args, callee):
     ints = all(isinstance(a, sx.Int) for a in dargs) and len(dargs) > 0
     bools = all(isinstance(a, sx.Bool) for a in dargs) and len(dargs) > 0
 
+    flts = all(isinstance(a, sx.Flt) for a in dargs) and len(dargs) > 0
+    if flts and tr in ("PartialOrd", "PartialEq"):
+        x, y = dargs[0].t, dargs[1].t
+        if meth == "partial_cmp":
+            return _some(_ordering(x, y))
+        if meth in ("lt", "le", "gt", "ge", "eq", "ne"):
+            return sx.Bool({"lt": lt, "le": le, "gt": gt, "ge": ge, "eq": eq, "ne": ne}[meth](x, y))
+    if flts and tr in ("Add", "Sub", "Mul", "Neg") and meth in ("add", "sub", "mul", "neg"):
+        if meth == "neg":
+            return sx.Flt(neg(dargs[0].t))
+        x, y = dargs[0].t, dargs[1].t
+        if meth == "mul" and not is_c(x) and not is_c(y):
+            raise sx.NotEncodable("symbolic f64 * symbolic f64")
+        r = nm({"add": add, "sub": sub, "mul": mul}[meth](x, y), "f")
+        _panic_fp(ex, st, "f64 %s result beyond 2^53" % meth, not_(and_(le(-sx.F64_EXACT, r), le(r, sx.F64_EXACT))))
+        return sx.Flt(r)
+    if tr == "From" and meth == "from" and ty == "f64" and ints:
+        return sx.Flt(dargs[0].t)       # lossless for every integer type that implements Into<f64>
+    if tr == "Default" and meth == "default" and ty == "f64":
+        return sx.Flt(0)
+    if tr == "FromPrimitive" and ty == "f64" and ints and meth.startswith("from_"):
+        x = dargs[0].t
+        _panic_fp(ex, st, "int -> f64 beyond 2^53", not_(and_(le(-sx.F64_EXACT, x), le(x, sx.F64_EXACT))))
+        return _some(sx.Flt(x))
+    if tr == "FromPrimitive" and ty in INT_TYPES and flts and meth == "from_f64":
+        x = dargs[0].t
+        return _opt(in_range(x, ty), sx.Int(x, ty))
+    if tr == "AsPrimitive" and meth == "as_" and flts:
+        mt = re.match(r"^AsPrimitive<(\w+)>$", full_tr.strip())
+        if mt and mt.group(1) in INT_TYPES:
+            lo_, hi_ = ty_range(mt.group(1))
+            x = dargs[0].t
+            return sx.Int(nm(ite(lt(x, lo_), lo_, ite(gt(x, hi_), hi_, x)), "fi"), mt.group(1))
+        if mt and mt.group(1) == "f64":
+            return dargs[0]
+    if tr == "AsPrimitive" and meth == "as_" and ints:
+        mt = re.match(r"^AsPrimitive<(\w+)>$", full_tr.strip())
+        if mt and mt.group(1) == "f64":
+            x = dargs[0].t
+            _panic_fp(ex, st, "int -> f64 beyond 2^53", not_(and_(le(-sx.F64_EXACT, x), le(x, sx.F64_EXACT))))
+            return sx.Flt(x)
     if tr in ("Ord", "PartialOrd", "PartialEq") and ints:
         x, y = dargs[0].t, dargs[1].t
         if meth == "cmp":
